@@ -1,0 +1,24 @@
+//go:build verif
+
+package crypto
+
+// Verification hooks (build tag verif) for the CoSi / aggregate-signature
+// checks of /verif: the unexported transcript domain strings and the nonce
+// constructor.
+
+const (
+	VerifAggregateCoefficientDomain = aggregateCoefficientDomain
+	VerifAggregateNonceDomain       = aggregateNonceDomain
+)
+
+// VerifNewCosiNonce wraps newCosiNonce: a nonce handle over a chosen scalar.
+func VerifNewCosiNonce(random *Key) *CosiNonce {
+	return newCosiNonce(random)
+}
+
+// VerifCosiNonceUsed reports whether the handle's shared state is bound to a challenge.
+func VerifCosiNonceUsed(n *CosiNonce) bool {
+	n.state.Lock()
+	defer n.state.Unlock()
+	return n.state.used
+}
